@@ -156,7 +156,8 @@ def real_load(schema, text, url="file:///zcvroot/main.conf", overrides=(), hname
     """returns (outcome, config or None, handler).
     Loads without overrides go, every other time, through ONE long-lived ConfigLoader per schema object (loader objects are
     documented as reusable: the outcome must not depend on what the loader served before, failed loads included); the
-    others, and all loads with overrides, use the module-level entry point (a fresh loader)."""
+    others use the module-level entry point (a fresh loader).  Loads with overrides alternate between the module-level entry point
+    and one ExtendedConfigLoader that performs the load twice."""
     try:
         if reuse is None:
             _reused_loaders["n"] = _reused_loaders.get("n", 0) + 1
@@ -170,6 +171,18 @@ def real_load(schema, text, url="file:///zcvroot/main.conf", overrides=(), hname
                     _reused_loaders.clear()
                 _reused_loaders[id(schema)] = ld
             cfg, handler = ld[1].loadFile(io.StringIO(text), url)
+        elif reuse and overrides:
+            # one ExtendedConfigLoader, options added once, used for two loads of the same text: the overrides belong to the
+            # loader, every load it performs gets them (the second load's result is the one compared)
+            from ZConfig.cmdline import ExtendedConfigLoader
+            ld2 = ExtendedConfigLoader(schema)
+            for spec in overrides:
+                ld2.addOption(spec)
+            try:
+                ld2.loadFile(io.StringIO(text), url)
+            except Exception:
+                pass
+            cfg, handler = ld2.loadFile(io.StringIO(text), url)
         else:
             cfg, handler = ZConfig.loadConfigFile(schema, io.StringIO(text), url, overrides=list(overrides))
     except Exception as e:
